@@ -13,8 +13,10 @@ else:
     mirs=engine.dump_mir()
 prog=engine.load_program(mirs)
 recs,dt=engine.run_harness(prog,h,params,opts,budget_s=int(os.environ.get('BUDGET','300')))
-s=engine.summarize(recs); s['funcs']=len(s['funcs']); s['assumptions']=sorted(s['assumptions'])
+s=engine.summarize(recs); forks=sorted(((v,k) for k,v in s['funcs'].items() if k.startswith('@fork')),reverse=True)[:12]; s['funcs']=len(s['funcs']); s['assumptions']=sorted(s['assumptions'])
 print({k:v for k,v in s.items() if v}, round(dt,1))
+
+for v,k in forks: print(v,k)
 seen=set()
 for r in recs:
     if r['status'] in ('ok','stats','pruned'): continue
